@@ -1,1 +1,76 @@
-From PLV Require Import Disc.TranspileModel.
+(* C19 transpile respects device connectivity.
+   Statements only; every proof is `exact <lemma>` from Disc/TranspileProofs.v.
+   Model: Disc/TranspileModel.v  (transpile E sp ops ms dev : coupling edge list E, path oracle sp,
+   gates ops = (name code, wires), measurement wire lists ms, device wires dev ([] = no device)).
+   Result `Ok gs ms' wo' sw c`: output gates, remapped measurements, final wire order, the ghost list of
+   transpositions performed (the accumulated permutation is `papp sw`) and the number of oracle calls.
+   `dev_covers ops ms dev`: no device, or the device wires contain every tape wire. *)
+From Coq Require Import List ZArith Bool.
+From PLV Require Import Disc.TranspileModel Disc.TranspileProofs.
+Import ListNotations.
+Open Scope Z_scope.
+
+(* Clause 1.  For ALL edge lists, ALL oracles (the model validates each answer), ALL circuits: every gate
+   of the output has at most two wires and every two-wire gate -- inserted SWAPs included -- acts on an
+   edge of the coupling graph; every transposition of the tracked permutation is along an edge. *)
+Theorem transpile_on_edges :
+  forall (E : list (Z * Z)) (sp : nat -> Z -> Z -> list Z) ops ms dev gs ms' wo' sw c,
+  dev_covers ops ms dev ->
+  transpile E sp ops ms dev = Ok gs ms' wo' sw c ->
+  Forall (fun g => match snd g with
+                   | [] | [_] => True
+                   | [a; b] => is_edge E a b = true
+                   | _ => False end) gs /\
+  Forall (fun s => is_edge E (fst s) (snd s) = true) sw.
+Proof. exact transpile_on_edges_prop. Qed.
+Print Assumptions transpile_on_edges.
+
+(* Clause 2.  Over ANY state space with a gate semantics `sem` and a relabelling action `act1 a b` of
+   transpositions such that (H2) relabelled gates act as conjugated gates and (H3) SWAP a b acts as the
+   relabelling (a b):  running the output circuit = running the input circuit, then relabelling by the
+   accumulated permutation pi = papp sw.  The returned measurements (after the device completion of
+   wire-less measurements) and the wire order are the images under the same pi, pi is a bijection with
+   inverse papp (rev sw), and pi permutes the nodes of the coupling graph. *)
+Theorem transpile_perm :
+  forall (E : list (Z * Z)) (sp : nat -> Z -> Z -> list Z) ops ms dev gs ms' wo' sw c,
+  dev_covers ops ms dev ->
+  transpile E sp ops ms dev = Ok gs ms' wo' sw c ->
+  (forall (St : Type) (sem : gate -> St -> St) (act1 : Z -> Z -> St -> St),
+     (forall a b g s, sem (gmap (transp a b) g) (act1 a b s) = act1 a b (sem g s)) ->
+     (forall a b s, sem (mkswap a b) s = act1 a b s) ->
+     forall s, run St sem gs s = act St act1 sw (run St sem ops s)) /\
+  ms' = map (map (papp sw)) (process_meas dev ms) /\
+  wo' = map (papp sw) (wo0 ops ms dev) /\
+  is_inverse (papp sw) (papp (rev sw)) /\
+  (forall w, In w (nodes E) <-> In (papp sw w) (nodes E)).
+Proof. exact transpile_perm_lem. Qed.
+Print Assumptions transpile_perm.
+
+(* Clause 3 (totality).  On a connected coupling graph containing every tape wire, with an oracle that
+   returns a valid path whenever one exists, for circuits of gates with <= 2 (distinct) wires, the model
+   never returns Err (in particular the loop fuel suffices and no oracle answer is rejected). *)
+Theorem transpile_total :
+  forall (E : list (Z * Z)) (sp : nat -> Z -> Z -> list Z) ops ms dev,
+  connected E -> oracle_correct E sp ->
+  dev_covers ops ms dev ->
+  Forall gate_ok ops ->
+  incl (tape_wires ops ms) (nodes E) ->
+  transpile E sp ops ms dev <> Err.
+Proof. exact transpile_total_lem. Qed.
+Print Assumptions transpile_total.
+
+(* Non-vacuity 1: the hypotheses of clause 2 (H2, H3) have a non-trivial instance -- the state is the
+   position of a marked token, SWAP moves it, relabelling moves it. *)
+Example sem_hyps_satisfiable :
+  (forall a b g s, tok_sem (gmap (transp a b) g) (transp a b s) = transp a b (tok_sem g s)) /\
+  (forall a b s, tok_sem (mkswap a b) s = transp a b s).
+Proof. split; [exact tok_H2 | exact tok_H3]. Qed.
+
+(* Non-vacuity 2: the line 0-1-2 (line3, with the oracle sp3, both in Disc/TranspileProofs.v) is connected
+   in the sense of clause 3, sp3 is a correct oracle for it, and the circuit CNOT(0,2); CNOT(2,0) measured
+   on [2;0] is routed with one SWAP. *)
+Example total_hyps_satisfiable :
+  connected line3 /\ oracle_correct line3 sp3 /\
+  transpile line3 sp3 [(10, [0; 2]); (10, [2; 0])] [[2; 0]] [] =
+    Ok [(0, [1; 2]); (10, [0; 1]); (10, [1; 0])] [[1; 0]] [0; 1] [(1, 2)] 1%nat.
+Proof. exact line3_ok. Qed.
